@@ -10,6 +10,7 @@ from vt.util import V, case_rng, rng_for
 
 PROPERTY = "C19"
 TITLE = "Detector composition"
+TECHNIQUE = ("runtime monitoring: composition histories on real detectors against a flat-list shadow model, keyword recorders on sub-detectors, and an icontract class invariant on Detector/CombinedDetector (also evaluated while the repository's own tests run)")
 ANCHORS = ["pyrex.internal_functions:flatten", "pyrex.detector:Detector.__iter__", "pyrex.detector:Detector.__len__", "pyrex.detector:Detector.__getitem__",
            "pyrex.detector:CombinedDetector.__add__", "pyrex.detector:CombinedDetector.__radd__", "pyrex.detector:CombinedDetector.__iadd__",
            "pyrex.detector:Detector.triggered", "pyrex.detector:CombinedDetector.triggered", "pyrex.detector:Detector._test_positions",
@@ -22,15 +23,53 @@ RULE = ("one case = 'tree': 2-6 operands (Detector subclasses nested to depth <=
         "operands of which one is a Detector and >= 3 antennas; distinct = hash of the case")
 ASSUMPTIONS = ["a **kwargs build method that receives all keywords does not forward unknown ones to antenna constructors (recording stubs)"]
 BUDGET = {"quick": 300, "thorough": 1800}
+NEEDS_ICONTRACT = True
+_STATE = {"inv_evals": 0, "inv_compared": 0}
+
+
+class InvariantBroken(AssertionError):
+    pass
+
+
+def flat_consistent(self):
+    """Class invariant on the real Detector / CombinedDetector: length, iteration and indexing describe the same flat content."""
+    if _STATE.get("busy"):
+        return True          # the invariant's own reads (and those of nested detectors) are not checked again
+    _STATE["inv_evals"] += 1
+    if _STATE["inv_evals"] % 8:
+        return True          # evaluated at every 8th public call (a full flattening per call would dominate the run)
+    _STATE["busy"] = True
+    try:
+        items = list(iter(self))
+        n = len(self)
+        ends = [self[i] for i in ((0, n - 1, -1) if n > 0 else ())]
+    except Exception:       # noqa: BLE001 -- not observable in this state (half-built object): nothing to compare
+        return True
+    finally:
+        _STATE["busy"] = False
+    _STATE["inv_compared"] += 1
+    if n != len(items) or len({id(x) for x in items}) != len(items):
+        return False
+    return n == 0 or (ends[0] is items[0] and ends[1] is items[-1] and ends[2] is items[-1])
+
+
+def setup():
+    import icontract
+    import pyrex.detector as pd
+    for cls in (pd.Detector, pd.CombinedDetector):
+        if not cls.__dict__.get("_vt_inv", False):
+            icontract.invariant(flat_consistent, error=InvariantBroken)(cls)
+            cls._vt_inv = True
 
 
 def gen_cases(tier, seed):
     rng = rng_for(PROPERTY, seed)
     n = 400 if tier == "quick" else 8000
-    return [{"cls": ["tree", "tree", "dispatch", "above-ice"][i % 4], "n_operands": int(rng.integers(2, 7)), "salt": int(rng.integers(0, 2**31))} for i in range(n)]
+    return [{"cls": ["tree", "tree", "dispatch", "above-ice"][i % 4], "n_operands": int(rng.integers(2, 7)), "salt": int(rng.integers(0, 2**31))} for i in range(n)] + [
+        {"cls": "repo-suite", "files": ["tests/test_detector.py", "tests/test_kernel.py"]}]
 
 
-def run_case(case):
+def _run_case(case):
     import pyrex
     from pyrex.antenna import Antenna
     from pyrex.detector import Detector, CombinedDetector, AntennaSystem
@@ -299,3 +338,28 @@ def fx_kwargs_build_gets_nothing(case, viol):
     d = viol["detail"]
     return case["cls"] == "dispatch" and (viol["clause"] == "unexpected exception from pyrex" and "antenna_class" in d.get("message", "")
                                           or d.get("cls") in ("K1", "D0"))
+
+
+def run_case(case):
+    if case["cls"] == "repo-suite":
+        from vt import suite
+        v_ = V()
+        rep = suite.run("c19", case["files"])
+        evals = sum(sum(x for x in d.values() if isinstance(x, int)) for d in rep.get("contract_evaluations", {}).values())
+        v_.events += evals
+        for f_ in rep.get("contract_failures", []):
+            v_.check(False, "contract holds while the repository's own tests run", test=f_["test"], message=f_["message"])
+        sample_ = {"workload": "repository test files under the contract", "files": rep.get("files"), "tests_collected": rep.get("collected"), "contract_evaluations": evals, "pytest": rep.get("tail")}
+        if rep.get("returncode") != 0 and not rep.get("contract_failures"):
+            return v_.result(decided=False, nontrivial=False, sample=sample_, skip="repository tests did not pass under the plugin")
+        return v_.result(decided=True, nontrivial=evals >= 50, sample=sample_)
+    try:
+        return _run_case(case)
+    except InvariantBroken as e:
+        v_ = V()
+        v_.check(False, "class invariant: length, iteration and indexing of a detector describe the same flat content", contract=str(e)[:300], kind=case["cls"])
+        return v_.result(decided=True, nontrivial=True, sample={"kind": case["cls"]})
+
+
+def extra_evidence(results):
+    return {"contract": "icontract.invariant(flat_consistent) on the real Detector and CombinedDetector, evaluated at every 8th public call (and while the repository's own detector tests run)"}
